@@ -1,13 +1,15 @@
 --------------------------------- MODULE Xye ---------------------------------
 (* save_xye / load_xye as a state machine: a configuration is chosen, Save either         *)
 (* refuses it or produces a file, Load reads the file.                                    *)
-(*   mode "table":     every combination of variances / dimensions / masks / coordinates  *)
-(*                     / requested coordinate / bin edges (1 row, default header)         *)
+(*   mode "table":     every combination of variances / dimensions (0..3) / masks /       *)
+(*                     coordinates / requested coordinate / bin edges / 1 or 2 points      *)
+(*                     along the dimension (default header)                                *)
 (*   mode "roundtrip": every header of length <= MaxHeader over {a, #, LF, SP, digit, CR}  *)
 (*                     and 1..MaxRows rows for writable configurations                        *)
 EXTENDS XyeDefs
 
 CONSTANTS MaxHeader, MaxRows,
+          Part,    \* "all" | "table" | "roundtrip": which of the two families of configurations are explored
           Bug      \* "none" | "first_line_only" (negative control: only the first header line is
                    \*  commented) | "lossy" (negative control: data without variances is written)
 
@@ -19,16 +21,17 @@ Headers == UNION { [1..n -> HeaderSyms] : n \in 0..MaxHeader } \cup { <<-1>> }
 CoordSets == SUBSET {0, 1, 2, 3, 4}
 
 TableCfgs ==
-    { [hasvar |-> hv, ndim |-> nd, masks |-> m, coords |-> cs, arg |-> a, edges |-> es, nrows |-> 1,
+    { [hasvar |-> hv, ndim |-> nd, masks |-> m, coords |-> cs, arg |-> a, edges |-> es, nrows |-> n,
        header |-> <<-1>>] :
-        hv \in BOOLEAN, nd \in {0, 1, 2}, m \in BOOLEAN, cs \in CoordSets, a \in {-1, 0, 1, 4},
-        es \in { {}, {0}, {1}, {0, 1, 2, 3, 4} } }
+        hv \in BOOLEAN, nd \in {0, 1, 2, 3}, m \in BOOLEAN, cs \in CoordSets, a \in {-1, 0, 1, 4},
+        es \in { {}, {0}, {1}, {0, 1, 2, 3, 4} }, n \in {1, 2} }
 RoundTripCfgs ==
     { [hasvar |-> TRUE, ndim |-> 1, masks |-> FALSE, coords |-> cs, arg |-> a, edges |-> {}, nrows |-> n,
        header |-> h] :
         cs \in { {2}, {0, 1} }, a \in {-1, 1}, n \in 1..MaxRows, h \in Headers }
 
-Init == /\ cfg \in TableCfgs \cup { c \in RoundTripCfgs : c.arg \in c.coords \/ c.arg = -1 }
+Init == /\ cfg \in (IF Part = "roundtrip" THEN {} ELSE TableCfgs)
+                   \cup (IF Part = "table" THEN {} ELSE { c \in RoundTripCfgs : c.arg \in c.coords \/ c.arg = -1 })
         /\ phase = "chosen" /\ out = [k |-> "none", kind |-> "", lines |-> <<>>]
         /\ loaded = [ok |-> FALSE, rows |-> <<>>]
 
